@@ -28,18 +28,24 @@ func c17Scenario(rng *rand.Rand) *prodScenario {
 	sc := &prodScenario{Topics: []string{"t"}, CloseMode: "asyncclose", ChannelBuf: -1, Acks: sarama.WaitForLocal, RetryMax: 1, Submitters: 1, Version: sarama.V0_11_0_0}
 	sc.Brokers = 1 + rng.Intn(3)
 	sc.Parts = 1 + rng.Intn(6)
-	sc.Partitioner = []string{"hash", "refhash", "manual", "roundrobin", "random"}[rng.Intn(5)]
+	sc.Partitioner = []string{"hash", "refhash", "manual", "roundrobin", "random", "customhash"}[rng.Intn(6)]
+	if rng.Intn(5) < 2 || sc.Partitioner == "customhash" {
+		// two topics: two partitioner instances from one constructor, driven by two goroutines of the producer
+		sc.Topics = []string{"t", "u"}
+	}
 	sc.Leaderless = map[string]bool{}
-	switch rng.Intn(4) {
-	case 0: // every partition has a leader
-	case 1: // all leaderless
-		for p := 0; p < sc.Parts; p++ {
-			sc.Leaderless[fmt.Sprintf("t/%d", p)] = true
-		}
-	default:
-		for p := 0; p < sc.Parts; p++ {
-			if rng.Intn(3) == 0 {
-				sc.Leaderless[fmt.Sprintf("t/%d", p)] = true
+	for _, t := range sc.Topics {
+		switch rng.Intn(4) {
+		case 0: // every partition has a leader
+		case 1: // all leaderless
+			for p := 0; p < sc.Parts; p++ {
+				sc.Leaderless[fmt.Sprintf("%s/%d", t, p)] = true
+			}
+		default:
+			for p := 0; p < sc.Parts; p++ {
+				if rng.Intn(3) == 0 {
+					sc.Leaderless[fmt.Sprintf("%s/%d", t, p)] = true
+				}
 			}
 		}
 	}
@@ -47,8 +53,11 @@ func c17Scenario(rng *rand.Rand) *prodScenario {
 		sc.BadPartitioner = []string{"out-of-range-high", "out-of-range-neg", "error"}[rng.Intn(3)]
 	}
 	n := 3 + rng.Intn(25)
+	if len(sc.Topics) > 1 {
+		n += 20
+	}
 	for i := 0; i < n; i++ {
-		ms := &msgSpec{ID: i, Topic: "t", Part: -1, N: i, Value: valueFor(i, rng.Intn(6), rng), KeyNil: true}
+		ms := &msgSpec{ID: i, Topic: sc.Topics[rng.Intn(len(sc.Topics))], Part: -1, N: i, Value: valueFor(i, rng.Intn(6), rng), KeyNil: true}
 		if rng.Intn(3) != 0 {
 			ms.Key, ms.KeyNil = randBytes(rng, 1+rng.Intn(8)), false
 		}
@@ -87,13 +96,16 @@ func runPartProducerCase(prop, tier string, seed int64, k, idx int) proto.Rec {
 
 func oracleC17prod(res *prodResult, vs *violSet, rec *proto.Rec) {
 	sc := res.sc
-	var all, writable []int32
-	for p := 0; p < sc.Parts; p++ {
-		all = append(all, int32(p))
-		if !sc.Leaderless[fmt.Sprintf("t/%d", p)] {
-			writable = append(writable, int32(p))
+	allOf, writableOf := map[string][]int32{}, map[string][]int32{}
+	for _, t := range sc.Topics {
+		for p := 0; p < sc.Parts; p++ {
+			allOf[t] = append(allOf[t], int32(p))
+			if !sc.Leaderless[fmt.Sprintf("%s/%d", t, p)] {
+				writableOf[t] = append(writableOf[t], int32(p))
+			}
 		}
 	}
+	sameKey := map[string]int32{} // topic|key|offered -> index chosen before (hash partitioners)
 	calls := map[*sarama.ProducerMessage][]partCall{}
 	for _, c := range res.partCalls {
 		calls[c.Ptr] = append(calls[c.Ptr], c)
@@ -121,11 +133,13 @@ func oracleC17prod(res *prodResult, vs *violSet, rec *proto.Rec) {
 			continue // judged by C01
 		}
 		keyed := !sr.Spec.KeyNil
+		topic := sr.Spec.Topic
+		all, writable := allOf[topic], writableOf[topic]
 		consistent := false
 		switch sc.Partitioner {
 		case "manual":
 			consistent = true
-		case "hash", "refhash":
+		case "hash", "refhash", "customhash":
 			consistent = keyed
 		}
 		want := writable
@@ -164,10 +178,18 @@ func oracleC17prod(res *prodResult, vs *violSet, rec *proto.Rec) {
 			continue
 		}
 		chosen := want[c.Ret]
-		leaderless := sc.Leaderless[fmt.Sprintf("t/%d", chosen)]
+		if consistent && sc.Partitioner != "manual" {
+			// equal keys, equal partitions (per topic and number of partitions offered)
+			k := fmt.Sprintf("%s|%x|%d", topic, sr.Spec.Key, c.N)
+			if prev, ok := sameKey[k]; ok && prev != c.Ret {
+				vs.add("equal-keys-diverge", attr, fmt.Sprintf("message id=%d: key %x of topic %s went to index %d before and to %d now (%d partitions offered both times)", sr.Spec.ID, sr.Spec.Key, topic, prev, c.Ret, c.N))
+			}
+			sameKey[k] = c.Ret
+		}
+		leaderless := sc.Leaderless[fmt.Sprintf("%s/%d", topic, chosen)]
 		classes[fmt.Sprintf("consistent=%v,leaderless=%v", consistent, leaderless)] = true
 		for _, w := range onWire[sr.Spec.ID] {
-			if w != fmt.Sprintf("t/%d", chosen) {
+			if w != fmt.Sprintf("%s/%d", topic, chosen) {
 				vs.add("choice-not-honoured", attr+",wire", fmt.Sprintf("message id=%d: the partitioner chose index %d = partition %d, but the message was sent to %s", sr.Spec.ID, c.Ret, chosen, w))
 			}
 		}
@@ -188,5 +210,5 @@ func oracleC17prod(res *prodResult, vs *violSet, rec *proto.Rec) {
 	}
 	sort.Strings(cl)
 	rec.NonTrivial = len(res.partCalls) > 0 || len(classes) > 0
-	rec.Path = fmt.Sprintf("producer|%s|bad=%s|parts=%d|leaderless=%d|%s", sc.Partitioner, sc.BadPartitioner, sc.Parts, len(sc.Leaderless), strings.Join(cl, ";"))
+	rec.Path = fmt.Sprintf("producer|%s|topics=%d|bad=%s|parts=%d|leaderless=%d|%s", sc.Partitioner, len(sc.Topics), sc.BadPartitioner, sc.Parts, len(sc.Leaderless), strings.Join(cl, ";"))
 }
